@@ -62,7 +62,15 @@ func main() {
 	}
 }
 
-func cmdCheck(args []string) int {
+func cmdCheck(args []string) (code int) {
+	// a tree that does not type-check can trip the loader or the frame builder: that is a broken run (exit 2),
+	// never a verdict
+	defer func() {
+		if r := recover(); r != nil {
+			fmt.Fprintf(os.Stderr, "BROKEN: engine stopped (does the tree compile?): %v\n", r)
+			code = 2
+		}
+	}()
 	fs := flag.NewFlagSet("check", flag.ExitOnError)
 	tier := fs.String("tier", envOr("VERIF_TIER", "quick"), "quick|thorough")
 	repo := fs.String("repo", "/repo", "repository root")
